@@ -134,6 +134,10 @@ pub fn run(id: &str, cmd: &str, path: &Path, seed: u64) -> i32 {
                     let msgs = runner::draw(&vec(crate::gen::msg(opts), 0..=2), seed, "fuzz-corpus-chunk", i);
                     files.push(c06::base_bytes(&c06::Base::RecordChunk(msgs)).0);
                 }
+                for i in 0..16 {
+                    let b = runner::draw(&c06::crafted_base(), seed, "fuzz-corpus-crafted", i);
+                    files.push(c06::base_bytes(&b).0);
+                }
             }
             for (i, f) in files.iter().enumerate() {
                 if f.len() <= 16_384 {
